@@ -3,7 +3,7 @@
    the calls made from inside handlers, and what it accepts meets the calls' preconditions. *)
 From Coq Require Import ZArith List Bool PArith FMapPositive Lia.
 From Tickit Require Import LifeDefs LifeLemmas LifeChains LifeInv LifePure LifeWalks LifeRelink LifeRemove LifeClose
-  LifeQueue LifeDestroy LifeAttach LifeOps LifeFlush LifeFate LifeSpec LifeProofs LifeAgree LifeSpecEv.
+  LifeQueue LifeDestroy LifeAttach LifeOps LifeFlush LifeFate LifeSpec LifeProofs LifeAgree LifeSpecEv LifeTrace.
 Import ListNotations.
 Local Open Scope Z_scope.
 
@@ -253,44 +253,52 @@ Definition op_preE (h : heap) (o : op) : Prop :=
 Definition effE (o : op) (h h' : heap) : Prop :=
   match o with OFrameRef w => eff_ref w h h' | OFrameUnref w => eff_unref w h h' | _ => eff o h h' end.
 
-Lemma run_frame_ok : forall fuel o h, hinv [] h -> is_frame_op o = true -> op_preE h o ->
-  match run_op fixed fuel o h with
-  | Ok _ h' => hinv [] h' /\ effE o h h'
+(* what the dispatch functions do for a frame: the event is logged, then the reference is taken / dropped *)
+Definition frame_run (f : nat) (o : op) : M unit :=
+  match o with
+  | OFrameRef w => log_op (OFrameRef w) ;;; window_ref w
+  | OFrameUnref w => log_op (OFrameUnref w) ;;; unref fixed f w
+  | _ => ret tt
+  end.
+
+Lemma run_frame_ok : forall f o h, hinv [] h -> is_frame_op o = true -> op_preE h o ->
+  match frame_run f o h with
+  | Ok _ h' => hinv [] h' /\ effE o h h' /\ tr h' = o :: tr h
   | Fault _ _ => False
   | NoFuel => True
   end.
 Proof.
-  intros fuel o h HI Hfo Hpre. destruct fuel as [|f]; [cbn; exact I|].
-  rewrite run_op_S. unfold bind at 1.
-  assert (Hlog : exists h1, (match o with ONop => ret tt | _ => log_op o end) h = Ok tt h1 /\ hinv [] h1 /\
-                            wins h1 = wins h /\ nextw h1 = nextw h).
-  { destruct o; try discriminate; (eexists; split; [reflexivity|]; split; [apply hinv_log; exact HI|]; split; reflexivity). }
-  destruct Hlog as [h1 [Hrun [HI1 [Hw1 Hnw1]]]]. rewrite Hrun.
-  assert (Fw1 : forall a, findw h1 a = findw h a) by (intro a; unfold findw; rewrite Hw1; reflexivity).
-  destruct o; try discriminate; cbn [op_preE effE] in *.
+  intros f o h HI Hfo Hpre.
+  set (h1 := mkHeap (wins h) (reqs h) (rx h) (nextw h) (nextq h) (dlog h) (uninit_seen h) (o :: tr h)).
+  assert (HI1 : hinv [] h1) by (apply hinv_log; exact HI).
+  assert (Fw1 : forall a, findw h1 a = findw h a) by reflexivity.
+  assert (Hnw1 : nextw h1 = nextw h) by reflexivity.
+  destruct o; try discriminate; cbn [op_preE effE frame_run] in *; unfold bind at 1; unfold log_op; fold h1.
   - (* OFrameRef *)
-    rewrite <- Fw1 in Hpre. unfold window_ref.
+    unfold window_ref.
     pose proof (upd_links_spec [] w (fun c => set_ref c (w_ref c + 1)) h1 HI1 Hpre) as Hu.
     assert (Hf : forall c, same_links c (set_ref c (w_ref c + 1)) /\ w_ref c <= w_ref (set_ref c (w_ref c + 1))).
     { intro c. split; [repeat split|cbn; lia]. }
-    specialize (Hu Hf h1 eq_refl). destruct (upd w _ h1) as [u h2| |]; [|contradiction|exact I].
-    destruct Hu as [HI2 [_ Eh]]. split; [exact HI2|]. subst h2. split; [rewrite nextw_upd_cell; exact Hnw1|].
+    specialize (Hu Hf h1 eq_refl). pose proof (ktr_upd w (fun c => set_ref c (w_ref c + 1)) h1) as Ht.
+    destruct (upd w _ h1) as [u h2| |]; [|contradiction|exact I].
+    destruct Hu as [HI2 [_ Eh]]. split; [exact HI2|]. split; [|exact Ht]. subst h2. split; [rewrite nextw_upd_cell; exact Hnw1|].
     intro x. rewrite findw_upd_cell. rewrite Pos.eqb_sym. rewrite !Fw1. destruct (Pos.eqb x w) eqn:E.
     + apply Pos.eqb_eq in E. subst x. destruct (findw h w); cbn; auto.
     + destruct (findw h x); auto.
   - (* OFrameUnref *)
-    rewrite <- Fw1 in Hpre. destruct (live_some h1 w Hpre) as [c Hw].
+    destruct (live_some h1 w Hpre) as [c Hw].
     destruct (life_ok f) as [Hun _]. destruct (life_fate f) as [Huf _].
     pose proof (Hun [] h1 w HI1 (detached_nil h1) Hpre (fun x => x) h1 eq_refl) as Hu.
     pose proof (Huf [] h1 w c HI1 (detached_nil h1) Hw (fun x => x)) as Hf.
+    pose proof (ktr_unref f w h1) as Ht.
     destruct (unref fixed f w h1) as [u h2| |]; [|contradiction|exact I].
-    destruct Hu as [HI2 [_ Sh]]. destruct Hf as [F1 F2]. split; [exact HI2|].
+    destruct Hu as [HI2 [_ Sh]]. destruct Hf as [F1 F2]. split; [exact HI2|]. split; [|exact Ht].
     split; [rewrite (sh_nextw h1 h2 Sh); exact Hnw1|].
-    split; [intros a Hd; rewrite <- Fw1 in Hd; exact (shrinks_dead h1 h2 a Sh Hd)|].
-    intros c0 Hw0. rewrite <- Fw1 in Hw0. rewrite Hw in Hw0. inversion Hw0; subst c0. split.
+    split; [intros a Hd; exact (shrinks_dead h1 h2 a Sh Hd)|].
+    intros c0 Hw0. change (findw h1 w = Some c0) in Hw0. rewrite Hw in Hw0. inversion Hw0; subst c0. split.
     + intro Er. destruct (F1 Er) as [Ft Hd]. split; [|exact Hd].
       eapply fate_pre; [exact Ft|]. intros x Hx. rewrite Fw1. destruct (findw h x); auto.
-    + intro Er. intro x. pose proof (F2 Er x) as G. rewrite Fw1 in G. exact G.
+    + intro Er. intro x. pose proof (F2 Er x) as G. exact G.
 Qed.
 
 (* a call that may be made on this ghost state, with what it needs about frames when a window goes:
